@@ -117,6 +117,13 @@ def _finish_jc(b, jc, q, active, nbg, may_fail, racy_reads=False):
             if isinstance(names[i], SymVal):
                 b.assume(names[i].t != names[j].t)
     jc.attrs.update(_background=bg, _active_agent=act, _queue=q, _lock=lock_stub(b, may_fail))
+    # guarded by the lock: every write of the slot by the code under contract happens while the lock is held (a write after the
+    # lock was let go lets another thread see a free slot and start a second job)
+    b.ghost('unlocked_slot_writes', 0)
+    def slot_written(I_, o, f, v):
+        if o.attrs['_lock'].attrs['depth'] <= 0:
+            I_.ghost['unlocked_slot_writes'] = I_.ghost['unlocked_slot_writes'] + 1
+    b.on_write(jc, '_active_agent', slot_written)
     if racy_reads:
         # rely: the slot is written by job threads (completion) under the lock.  What this thread reads WITHOUT holding the lock
         # may be out of date by the time it holds it: such a read yields either the slot's value or the other possibility
@@ -212,6 +219,7 @@ c.ensures('otherwise-nothing-starts',
           "timed_out() or old(self._active_agent) is not None or len(old(self._queue)) == 0 ==> "
           "self._active_agent is old(self._active_agent) and same_agents(self._queue, old(self._queue)) and len(ghost('started')) == 0")
 c.ensures('holds-the-slot-before-its-thread-starts', "all(ghost('registered_at_start'))")
+c.ensures('the-slot-is-written-under-the-lock', "ghost('unlocked_slot_writes') == 0")
 
 # ---- add_job / insert_job
 for meth, front in (('add_job', False), ('insert_job', True)):
@@ -234,6 +242,7 @@ for meth, front in (('add_job', False), ('insert_job', True)):
               "and same_agents(self._queue, tail(%s)) and same_agents(ghost('started'), seq(self._active_agent))" % (new_q, new_q))
     c.ensures('agent-reports-back-to-the-controller', "not is_none(result) ==> result._job is job and result._callback.__func__ is self._on_execution_done.__func__")
     c.ensures('holds-the-slot-before-its-thread-starts', "all(ghost('registered_at_start'))")
+    c.ensures('the-slot-is-written-under-the-lock', "ghost('unlocked_slot_writes') == 0")
 
 # ---- completion: frees the slot and starts the next one
 c = contract(JC, 'JobControl._on_execution_done', serves=['C08'])
@@ -245,6 +254,7 @@ c.cases([{'q': q} for q in (0, 'any+')])
 c.ensures('lock-balanced', 'lock_released(self)')
 c.ensures('next-in-queue-order-starts', "not timed_out() and len(old(self._queue)) > 0 ==> self._active_agent is old(self._queue)[0] "
           "and same_agents(self._queue, tail(old(self._queue))) and same_agents(ghost('started'), seq(self._active_agent))")
+c.ensures('the-slot-is-written-under-the-lock', "ghost('unlocked_slot_writes') == 0")
 c.ensures('drained', "not timed_out() and len(old(self._queue)) == 0 ==> self._active_agent is None and len(ghost('started')) == 0 and self.has_jobs() == (len(self._background) > 0)")
 
 # ---- the agent: the callback is invoked exactly once, also when the job raises
